@@ -296,6 +296,10 @@ func Run(ctx *common.Ctx) {
 	for k := range is {
 		specs = append(specs, sessSpec{is[k], ip[k], false, false, "block:instance-slot-session"})
 	}
+	ks, kp := constantInstanceSessions()
+	for k := range ks {
+		specs = append(specs, sessSpec{ks[k], kp[k], false, false, "block:constant-instance-session"})
+	}
 	for i := 0; i < nmod; i++ {
 		wild := i%2 == 1
 		forms, probes, wildText := genSession(rng, ctx.Hist, wild, true)
@@ -346,7 +350,9 @@ func Run(ctx *common.Ctx) {
 	cblock = classBlock()
 	// then the enumerated block of packages with functions x the package that is current while the snapshot is taken
 	pblock := pkgBlock()
-	for i := 0; i < next+len(cblock)+len(pblock); i++ {
+	// and the block of constants holding objects the model does not cover (class instances, a hash table holding an instance)
+	kos, kop := constantObjectSessions()
+	for i := 0; i < next+len(cblock)+len(pblock)+len(kos); i++ {
 		var forms, probes []string
 		tag := "session:extended-tame"
 		var pc *pkgCase
@@ -357,6 +363,9 @@ func Run(ctx *common.Ctx) {
 			pc = &pblock[j]
 			forms, probes = pkgSession(pblock[j], j)
 			tag = "block:package-functions-session"
+		} else if j := i - len(cblock) - len(pblock); j < len(kos) {
+			forms, probes = kos[j], kop[j]
+			tag = "block:constant-object-session"
 		} else {
 			forms, probes, _ = genSession(rng, ctx.Hist, false, false)
 		}
